@@ -390,7 +390,7 @@ class TokenEncoder:
             for token_pattern in encoding_rules:
                 if not dry_run:
                     encoded = token_pattern.sub(self._encoding_filter, encoded)
-                elif token_pattern.match(encoded):
+                elif token_pattern.search(encoded):
                     raise RuntimeError(
                         f'Unstable encoding: using prefix "{self._encoding_prefix}" partially encoded token: '
                         '"{encoded}"'
